@@ -1,6 +1,7 @@
 import CssVerif.Lib.Proto
 import CssVerif.Model.Tok
 import CssVerif.Model.TokSpec
+import CssVerif.Lemmas.TokLex2
 open CssVerif CssVerif.Proto CssVerif.Tok CssVerif.Gen.C05
 
 def showStop : Stop → String
@@ -28,11 +29,46 @@ def reByName (n : String) : Option Re :=
 def flag? (w : String) : Option Bool :=
   if w == "1" then some true else if w == "0" then some false else none
 
+/-- one lexeme of `Lex2`, written `kind,arg,…` (arguments: dotted hex code points) -/
+def lex2? (w : String) : Option Lex2 :=
+  match (w.splitOn ",").map fun a => (a, decCps a) with
+  | [("num", _), (_, some (d :: ds))] => some (.old (.num d ds))
+  | [("ident", _), (_, some (c :: cs))] => some (.old (.ident c cs))
+  | [("fixed", _), (n, _), (_, some w), (_, some [k])] => some (.old (.fixed n w k))
+  | [("fast", _), (_, some [c])] => some (.old (.fast c))
+  | [("pct", _), (_, some (d :: ds))] => some (.old (.pct d ds))
+  | [("dim", _), (_, some (d :: ds)), (_, some (c :: cs))] => some (.old (.dim d ds c cs))
+  | [("hash", _), (_, some (n :: ns))] => some (.old (.hash n ns))
+  | [("atkw", _), (_, some (c :: cs))] => some (.old (.atkw c cs))
+  | [("str", _), (_, some [q]), (_, some body)] => some (.str q body)
+  | [("fn", _), (_, some (c :: cs))] => some (.fn c cs)
+  | [("uri", _), (_, some [u, r, l]), (_, some body)] => some (.uri u r l body)
+  | [("ur", _), (_, some [u]), (_, some (h :: hs))] => some (.urange u h hs)
+  | [("cmt", _), (_, some body)] => some (.cmt body)
+  | [("cdc", _)] => some .cdc
+  | _ => none
+
+def lex2All? : List String → Option (List Lex2)
+  | [] => some []
+  | w :: ws => match lex2? w, lex2All? ws with
+    | some t, some ts => some (t :: ts)
+    | _, _ => none
+
+def showPairs (ps : List (String × List Nat)) : String :=
+  String.join (ps.map fun p => " " ++ p.1 ++ ":" ++ encCps p.2)
+
 def handle (line : String) : String :=
   match words line with
   | ["tok", f, d, t] => match flag? f, flag? d, decCps t with
       | some f, some d, some t => showRes (tokenize t f d)
       | _, _, _ => "bad-op"
+  | "lex2" :: d :: ws => match flag? d, lex2All? ws with
+      | some d, some ts =>
+        let wf := ts.all fun t => decide t.WF
+        let ok := wf && !hasAt (render2 ts) charsetStart
+        s!"{if ok then 1 else 0} {encCps (render2 ts)} |" ++
+          showPairs ((expectedAll ts).filter fun p => d || p.1 != "COMMENT")
+      | _, _ => "bad-op"
   | ["re", n, t] => match reByName n, decCps t with
       | some r, some t => match r.first t with
           | some l => toString l
